@@ -446,6 +446,10 @@ func ruleC19_3(c *Ctx) {
 						return ok && calleeName(k) == "encoding/hex.EncodeToString"
 					}, true)
 				}
+				if fb := foreignCallsOnDef(st.Val); len(fb) > 0 {
+					okType = false
+					c.bad(R, fn, "private half ("+kt+") is the encoding of the bytes given", st.Pos(), "the private bytes pass through "+strings.Join(fb, ", ")+" before they are encoded: bytes of the key that happen to look like white space (or whatever the call drops or changes) are lost, the key no longer signs and its id is that of another value")
+				}
 				c.check(guarded && fromPriv && !fromPub && okType, R, fn, "private half ("+kt+")", st.Pos(), "only under len(privateKeyBytes) > 0, from the private bytes, encoded for "+kt,
 					fmt.Sprintf("private half for %s: under length guard=%v, from private bytes=%v, from public bytes=%v, encoding ok=%v", kt, guarded, fromPriv, fromPub, okType))
 			case "Public":
@@ -455,6 +459,10 @@ func ruleC19_3(c *Ctx) {
 				okType := true
 				if kt == "rsa" || kt == "ecdsa" {
 					okType = derives(st.Val, func(v ssa.Value) bool { s, ok := constString(v); return ok && s == "PUBLIC KEY" }, true)
+				}
+				if fb := foreignCallsOnDef(st.Val); len(fb) > 0 {
+					okType = false
+					c.bad(R, fn, "public half ("+kt+") is the encoding of the bytes given", st.Pos(), "the public bytes pass through "+strings.Join(fb, ", ")+" before they are encoded: the stored public half, and with it the key id, is no longer that of the loaded key")
 				}
 				c.check(fromPub && !fromPriv && okType, R, fn, "public half ("+kt+")", st.Pos(), "from the public bytes", fmt.Sprintf("public half for %s: from public bytes=%v, from private bytes=%v, PEM type ok=%v", kt, fromPub, fromPriv, okType))
 			case "Certificate":
@@ -763,4 +771,67 @@ func (c *Ctx) c19StructPreimage(R, fn string, enc ssa.CallInstruction) bool {
 		c.check(okInner, R, fn, "keyval holds only the public half", al.Pos(), "keyval:{public: k.KeyVal.Public}, every other member omitted when empty", detail+" (private material or certificate would change the id between halves)")
 	}
 	return true
+}
+
+// keyEncodingCalls: what may stand between the key bytes handed to setKeyComponents and the string stored in KeyVal.
+// strings.TrimSpace is applied to the *encoded* text (PEM, hex), where white space carries nothing.
+var keyEncodingCalls = map[string]bool{
+	"encoding/hex.EncodeToString":    true,
+	"in_toto.generatePEMBlock":       true,
+	"encoding/pem.EncodeToMemory":    true,
+	"strings.TrimSpace":              true,
+	"strings.TrimRight":              true,
+	"strings.TrimSuffix":             true,
+	"builtin:len":                    true,
+	"builtin:append":                 true,
+	"builtin:copy":                   true,
+	"encoding/hex.EncodedLen":        true,
+	"encoding/hex.Encode":            true,
+	"(*strings.Builder).WriteString": true,
+	"(*strings.Builder).String":      true,
+}
+
+// foreignCallsOnDef lists the calls, outside keyEncodingCalls, that the definition of v runs through. A call that is
+// applied to raw key bytes (bytes.TrimSpace, bytes.ToLower, a re-slicing helper) changes the key.
+func foreignCallsOnDef(v ssa.Value) []string {
+	seen := map[ssa.Value]bool{}
+	found := map[string]bool{}
+	var walk func(x ssa.Value, depth int)
+	walk = func(x ssa.Value, depth int) {
+		if x == nil || seen[x] || depth > 40 {
+			return
+		}
+		seen[x] = true
+		switch y := x.(type) {
+		case *ssa.Call:
+			n := calleeName(y)
+			if !keyEncodingCalls[n] {
+				found[n] = true
+			}
+			for _, a := range y.Call.Args {
+				walk(a, depth+1)
+			}
+			if y.Call.IsInvoke() {
+				walk(y.Call.Value, depth+1)
+			}
+		case *ssa.Phi:
+			for _, e := range y.Edges {
+				walk(e, depth+1)
+			}
+		case *ssa.Parameter, *ssa.Const, *ssa.Global, *ssa.Alloc, *ssa.FreeVar, *ssa.Function:
+		case ssa.Instruction:
+			for _, op := range y.Operands(nil) {
+				if *op != nil {
+					walk(*op, depth+1)
+				}
+			}
+		}
+	}
+	walk(v, 0)
+	var out []string
+	for n := range found {
+		out = append(out, n)
+	}
+	sort.Strings(out)
+	return out
 }
